@@ -137,7 +137,13 @@ def run_case(case, obs=None):
         with contextlib.redirect_stdout(sink):
             text = str(e)
             print(e)
+            mark = len(sink.getvalue())
             e.print_data()
+        # the dump goes to the stream that is sys.stdout NOW (replaced after the library was imported), one line per decoded field
+        dumped = sink.getvalue()[mark:].splitlines()
+        if len(dumped) != len(e.data) or any((" -> 0x%02X" % v) not in ln for ln, v in zip(dumped, e.data.values())):
+            out.append(("print_data_elsewhere/%s" % fmt, "print_data() of the error for sense %s wrote %d line(s) to the current sys.stdout, the decoded data have %d fields"
+                        % (buf[:20].hex(), len(dumped), len(e.data))))
     except Exception as ex:   # noqa: BLE001
         exp = expected(buf)
         what = "str()/print of sense %s (len %d) raised %s: %s" % (buf[:20].hex(), len(buf), type(ex).__name__, ex)
